@@ -303,25 +303,25 @@ def sites4(tree):
                 continue
             pos = "line %d col %d" % (getattr(n, "lineno", 0), getattr(n, "col_offset", 0))
             if isinstance(n, ast.Call) and isinstance(n.func, ast.Attribute) and n.func.attr in SIBLING:
-                out.append(Site("sibling", n, "%s: `%s` (%s) calls `.%s` instead" % (fn.name, ast.unparse(n)[:50], pos, SIBLING[n.func.attr])))
+                out.append(Site("sibling", n, "%s: `%s` calls `.%s` instead" % (fn.name, ast.unparse(n)[:50], SIBLING[n.func.attr])))
             elif isinstance(n, ast.Call) and isinstance(n.func, ast.Name) and n.func.id in BUILTIN_SIB:
-                out.append(Site("builtin", n, "%s: `%s` (%s) calls `%s` instead" % (fn.name, ast.unparse(n)[:50], pos, BUILTIN_SIB[n.func.id])))
+                out.append(Site("builtin", n, "%s: `%s` calls `%s` instead" % (fn.name, ast.unparse(n)[:50], BUILTIN_SIB[n.func.id])))
             elif isinstance(n, ast.Constant) and isinstance(n.value, str) and n.value and len(n.value) < 40:
-                out.append(Site("strtypo", n, "%s: string %r (%s) misspelt" % (fn.name, n.value, pos)))
+                out.append(Site("strtypo", n, "%s: string %r misspelt" % (fn.name, n.value)))
             elif isinstance(n, ast.UnaryOp) and isinstance(n.op, ast.Not):
-                out.append(Site("unnot", n, "%s: `%s` (%s) loses its `not`" % (fn.name, ast.unparse(n)[:50], pos)))
+                out.append(Site("unnot", n, "%s: `%s` loses its `not`" % (fn.name, ast.unparse(n)[:50])))
             elif isinstance(n, ast.IfExp):
-                out.append(Site("ifexp", n, "%s: branches of `%s` (%s) swapped" % (fn.name, ast.unparse(n)[:50], pos)))
+                out.append(Site("ifexp", n, "%s: branches of `%s` swapped" % (fn.name, ast.unparse(n)[:50])))
             elif isinstance(n, ast.AugAssign) and type(n.op) in BINOP:
-                out.append(Site("augop", n, "%s: operator of `%s` (%s) changed" % (fn.name, ast.unparse(n)[:50], pos)))
+                out.append(Site("augop", n, "%s: operator of `%s` changed" % (fn.name, ast.unparse(n)[:50])))
             elif isinstance(n, ast.BinOp) and type(n.op) in BINOP and not (isinstance(n.left, ast.Constant) and isinstance(n.left.value, str)):
-                out.append(Site("binop", n, "%s: operator of `%s` (%s) changed" % (fn.name, ast.unparse(n)[:50], pos)))
+                out.append(Site("binop", n, "%s: operator of `%s` changed" % (fn.name, ast.unparse(n)[:50])))
             elif isinstance(n, ast.Raise) and isinstance(n.exc, ast.Call) and isinstance(n.exc.func, ast.Name) and n.exc.func.id in EXC_SIB:
-                out.append(Site("excclass", n, "%s: `%s` (%s) raises %s instead" % (fn.name, ast.unparse(n)[:50], pos, EXC_SIB[n.exc.func.id])))
+                out.append(Site("excclass", n, "%s: `%s` raises %s instead" % (fn.name, ast.unparse(n)[:50], EXC_SIB[n.exc.func.id])))
             elif isinstance(n, ast.If) and n.orelse and not (len(n.orelse) == 1 and isinstance(n.orelse[0], ast.If)):
-                out.append(Site("dropelse", n, "%s: else branch of `if %s` (%s) dropped" % (fn.name, ast.unparse(n.test)[:50], pos)))
+                out.append(Site("dropelse", n, "%s: else branch of `if %s` dropped" % (fn.name, ast.unparse(n.test)[:50])))
             elif isinstance(n, ast.Subscript) and isinstance(n.slice, ast.Slice) and isinstance(n.ctx, ast.Load):
-                out.append(Site("unslice", n, "%s: slice `%s` (%s) replaced by the whole" % (fn.name, ast.unparse(n)[:50], pos)))
+                out.append(Site("unslice", n, "%s: slice `%s` replaced by the whole" % (fn.name, ast.unparse(n)[:50])))
             elif isinstance(n, ast.Attribute) and isinstance(n.ctx, ast.Load) and n.attr in ("version", "_version") :
                 pass
         for a, d in zip(fn.args.args[len(fn.args.args) - len(fn.args.defaults):], fn.args.defaults):
